@@ -121,12 +121,13 @@ type committed struct {
 }
 
 type cfg struct {
-	secure     bool
-	rootMode   int // 0: roots only at explicit hash ops and at the end; 1: Copy().Hash() after every op; 2: Hash() after every op; 3: mixed
-	cleanCache bool
-	exhaustive bool // exhaustive proof mutations (corpus)
-	tamperKeys int
-	perms      int
+	secure      bool
+	rootMode    int // 0: roots only at explicit hash ops and at the end; 1: Copy().Hash() after every op; 2: Hash() after every op; 3: mixed
+	cleanCache  bool
+	exhaustive  bool // exhaustive proof mutations (corpus)
+	tamperKeys  int
+	perms       int
+	rangeRounds int
 }
 
 type stop struct{}
@@ -777,6 +778,29 @@ func (h *hist) checkStack(b *branch, root common.Hash) {
 		h.fail("stack-root-differs", fmt.Sprintf("StackTrie over the sorted %d-entry content gives %x, the trie %x", len(keys), got, root))
 	}
 	h.cnt["stack_roots"]++
+	// serialised in mid-stream and continued from the binary form (as a resumed sync does)
+	if len(keys) >= 2 {
+		cut := 1 + h.r.Intn(len(keys)-1)
+		sa := trie.NewStackTrie(nil)
+		for _, k := range keys[:cut] {
+			sa.Update([]byte(k), cp(b.model[k]))
+		}
+		blob, err := sa.MarshalBinary()
+		if err != nil {
+			h.fail("stack-marshal-error", "StackTrie.MarshalBinary: "+err.Error())
+		}
+		sb, err := trie.NewFromBinary(blob, nil)
+		if err != nil {
+			h.fail("stack-marshal-error", "trie.NewFromBinary: "+err.Error())
+		}
+		for _, k := range keys[cut:] {
+			sb.Update([]byte(k), cp(b.model[k]))
+		}
+		if got := sb.Hash(); got != root {
+			h.fail("stack-root-differs:after-marshal", fmt.Sprintf("StackTrie serialised after %d of %d sorted entries and continued gives %x, the trie %x", cut, len(keys), got, root))
+		}
+		h.cnt["stack_marshal_roundtrips"]++
+	}
 	// committing stack trie: the nodes it writes must form the complete trie
 	disk := memorydb.New()
 	st2 := trie.NewStackTrie(func(owner common.Hash, path []byte, hash common.Hash, blob []byte) {
@@ -1140,10 +1164,10 @@ func Main() {
 		walls[name] = time.Since(t0).Seconds() // reporting only, no verdict depends on it
 	}
 	group("corpus", numCorpus, core.Opts{Procs: numCorpus, StallSec: 240, MemMB: 8192}, corpusCase)
-	group("history", r.N(1500, 40000), po, historyCase(false))
-	group("secure", r.N(300, 6000), po, historyCase(true))
-	group("perm", r.N(120, 3000), po, permCase)
-	group("derive", r.N(40, 1500), po, deriveCase)
+	group("history", r.N(2500, 80000), po, historyCase(false))
+	group("secure", r.N(400, 10000), po, historyCase(true))
+	group("perm", r.N(150, 2000), po, permCase)
+	group("derive", r.N(45, 1500), po, deriveCase)
 	r.Extra("group_wall_s", walls)
 	r.Floor("op:delete", 1000)
 	r.Floor("op:overwrite", 500)
